@@ -176,6 +176,7 @@ API_COMBOS = [  # (store, output form, chunk size)
     ("path", "dense", 1), ("path", "dense", 10 ** 7), ("path", "sparse", 1), ("path", "sparse", 10 ** 7),
     ("path", "pixels", 10 ** 7), ("path", "pixels+index", 1), ("path", "func", 10 ** 7),
     ("uri", "dense", 10 ** 7), ("uri", "pixels+index", 10 ** 7), ("handle", "sparse", 10 ** 7), ("handle", "pixels", 1),
+    ("uri", "dense:score", 1), ("uri", "sparse:score", 10 ** 7),       # field=: the second value column of the collection
 ]
 JOIN_COMBOS = [("path", "pixels+join", 10 ** 7), ("handle", "pixels+join", 1)]
 
@@ -192,7 +193,9 @@ def _api_case(R, n, symm, cells, tag, only, join=False, reduced=False):
     p2 = scratch.fresh()
     try:
         build.create(p1, bins, pix, symm)
-        build.create(p2 + "::/a/b", bins, pix, symm)
+        # /a/b carries a second value column (score = 1000 - 3 * count) that field= selects
+        build.create(p2 + "::/a/b", bins, {k: {"count": v, "score": 1000 - 3 * v} for k, v in pix.items()}, symm, cols=("count", "score"))
+        MS = build.dense(n, {k: 1000 - 3 * v for k, v in pix.items()}, symm)
         # a SECOND, different collection in the same file (as in a multi-resolution file): the complement pattern with other values;
         # it is queried alternately with /a/b below, so that anything remembered per file (not per collection) shows
         cells2 = [c for c in alpha.cells(n, symm) if c not in set(map(tuple, cells))]
@@ -214,6 +217,10 @@ def _api_case(R, n, symm, cells, tag, only, join=False, reduced=False):
                     sel = clr.matrix(balance=False, chunksize=cs)
                 elif out == "sparse":
                     sel = clr.matrix(balance=False, sparse=True, chunksize=cs)
+                elif out == "dense:score":
+                    sel = clr.matrix(field="score", balance=False, chunksize=cs)
+                elif out == "sparse:score":
+                    sel = clr.matrix(field="score", balance=False, sparse=True, chunksize=cs)
                 elif out == "pixels":
                     sel = clr.matrix(balance=False, as_pixels=True, chunksize=cs)
                 elif out == "pixels+index":
@@ -251,7 +258,12 @@ def _api_case(R, n, symm, cells, tag, only, join=False, reduced=False):
                                 if o2.shape != exp.shape or not np.array_equal(o2, M2[i0:i1, j0:j1]):
                                     R.mismatch("dense!=slice-of-full(second-collection-of-the-file)", inner, f"got={o2.tolist()} want={M2[i0:i1, j0:j1].tolist()}")
                             res = sel[i0:i1, j0:j1]
-                            if out == "dense":
+                            if out in ("dense:score", "sparse:score"):
+                                es = MS[i0:i1, j0:j1]
+                                got = res.toarray() if out == "sparse:score" else res
+                                if got.shape != es.shape or not np.array_equal(got, es):
+                                    R.mismatch("field-matrix!=slice-of-full", inner, f"got={got.tolist()} want={es.tolist()} cells={cells}")
+                            elif out == "dense":
                                 if res.shape != exp.shape or not np.array_equal(res, exp):
                                     R.mismatch("dense!=slice-of-full", inner, f"got={res.tolist()} want={exp.tolist()} cells={cells}")
                             elif out == "sparse":
